@@ -271,7 +271,9 @@ Definition k_implicit (l : klang) (s t : cty) (c : cexpr) : option cexpr :=
       if is_float s || is_float t then None
       else match t with TBool => Some (CIte 1 0 c) | _ => Some (CConv t c) end
   | KCSharp | KD =>
-      if is_int s && is_int t && sub_range s t then Some (CConv t c) else None
+      (* lossless widening between integer types (D: also from/to its character types) *)
+      if (is_int s || cty_eqb s TChar) && (is_int t || cty_eqb t TChar) && sub_range s t
+      then Some (CConv t c) else None
   | KGo => None
   end.
 
